@@ -27,6 +27,7 @@ LEVEL_TEXT = (
     "loss to compare values is a runtime clause and is not decided."
     " Included: the shape-preservation rules of the deduplication wrapper (C12: sample() hands back exactly batch_size rows - the labels are written for batch_size samples), and the user's model receives a private copy of the proposed batch (it is the one callee not assumed to leave its argument alone)."
     ' An id, once handed out, keeps designating the same sampler class (id-table rules of C18); sample() never re-binds the history it was passed.'
+    " The evaluation-state rule of C08 is included (a loss evaluation leaves nothing behind for the next: the loss recorded for a row is the loss of that row's simulation)."
 )
 TECHNIQUE = "who-may-write + append-form rules, CFG region queries, normal forms, interprocedural alias/mutation analysis"
 
